@@ -17,7 +17,7 @@ LEVEL = "exploration"
 DECIDING = ["operations", "store_checks"]
 MIN_DECIDED_RATIO = 0.9
 RULE = (
-    "operations: add(name in 2, source file in 2, content in 3), mutate(source, content), remove(existing name), new-instance; all histories "
+    "operations: add(name in 2, source file in 2, content in 3), mutate(source, content), remove(existing name), add of a missing source file under an existing name (fails), new-instance; all histories "
     "up to renaming (canonical first-use order) of length <= 4 (quick) / <= 5 (thorough) plus random histories of length 8-25. Non-trivial: "
     "a history with at least two registrations; distinct = distinct canonical histories."
 )
@@ -54,6 +54,8 @@ class Model:
         elif k == "remove":
             self.names.pop(op[1], None)
             self.stored.pop(op[1], None)
+        elif k == "addfail":
+            self.sources.pop(op[2], None)  # the source file is gone; nothing is registered, nothing may change
 
 
 def enumerate_histories(L):
@@ -73,6 +75,8 @@ def enumerate_histories(L):
                 ops.append(("mutate", s, c))
         for n in sorted(existing):
             ops.append(("remove", n))
+            for s in range(ks):
+                ops.append(("addfail", n, s))
         if prefix:
             ops.append(("new",))
         for op in ops:
@@ -101,10 +105,12 @@ def random_history(r):
             existing.add(op[1])
         elif x < 0.75:
             op = ("mutate", r.randrange(2), r.randrange(3))
-        elif x < 0.87 and existing:
+        elif x < 0.83 and existing:
             n = r.choice(sorted(existing))
             op = ("remove", n)
             existing.discard(n)
+        elif x < 0.9 and existing:
+            op = ("addfail", r.choice(sorted(existing)), r.randrange(2))
         else:
             op = ("new",)
         h.append(op)
@@ -204,6 +210,16 @@ def run_history(h, agg):
                     f.write(CONTENTS[op[2]])
             elif op[0] == "remove":
                 cs.file_manager.remove_named_file(NAMES[op[1]])
+            elif op[0] == "addfail":
+                # a registration that fails: the source file does not exist (any more)
+                sp = os.path.join("srcfiles", SOURCES[op[2]])
+                if os.path.exists(sp):
+                    os.unlink(sp)
+                try:
+                    cs.file_manager.add_named_file(name=NAMES[op[1]], path=sp)
+                    w["failed_add_did_not_raise"] = True
+                except Exception:  # noqa
+                    pass
             else:
                 cs = env.new_csvpaths()
         except Exception as e:  # noqa
